@@ -96,6 +96,14 @@ func c06Property(t *rapid.T) {
 			cfg.settings[config.DataDictionary] = spec + dictForBegin[begin] + ".xml"
 		}
 	}
+	// options that shape what the engine writes into its answers (not which answer it gives)
+	if rapid.IntRange(0, 2).Draw(t, "last-msgseqnum-processed") == 0 {
+		cfg.settings[config.EnableLastMsgSeqNumProcessed] = "Y"
+		c.Class("setting:EnableLastMsgSeqNumProcessed")
+	}
+	if p := rapid.SampledFrom([]string{"", "", "", "SECONDS", "MICROS", "NANOS"}).Draw(t, "timestamp-precision"); p != "" {
+		cfg.settings[config.TimeStampPrecision] = p
+	}
 	state := rapid.SampledFrom([]string{"normal", "normal", "recovering", "pending", "pending+recovering", "logon"}).Draw(t, "state")
 	// a Logon may come in on the path that resets the store first (it carries ResetSeqNumFlag=Y, or
 	// the acceptor is configured with ResetOnLogon): the same checks gate it
